@@ -43,6 +43,19 @@ pub fn scenarios(thorough: bool) -> Vec<Scenario> {
     bc.mints = false;
     bc.overpay = false;
     v.extend(boundary_scenarios(&bc, if thorough { 7 } else { 5 }, thorough));
+    // replays: transfers and hostile members only, three per block, so that a transaction accepted without consuming anything
+    // meets its own second application after its outputs have moved on
+    let mut rp = AlphaCfg::base();
+    rp.per_denom = 1;
+    rp.splits = false;
+    rp.merges = false;
+    rp.burns = false;
+    rp.mints = false;
+    rp.faucets = false;
+    rp.pairs = false;
+    rp.max_txs_per_block = 3;
+    rp.seal_actions = vec![None];
+    v.push(sc("custom02-transfers-and-hostile-replays", NetID::Custom02, 0, rp, if thorough { 7 } else { 5 }));
     // other genesis configurations: initial coin in SYM / ERG / very large MEL, a non-empty initial fee pool, stakes from block 0
     v.extend(genesis_scenarios(["custom02-genesis-sym-feepool-stake", "custom02-genesis-erg-fees-stakes", "custom02-genesis-huge-mel-feepool"], NetID::Custom02, &pool_cfg(), if thorough { 7 } else { 5 }));
     if thorough {
